@@ -151,8 +151,7 @@ fn history_then_shallow(n: usize, d: Durability, untracked: bool) -> (bool, bool
         assert!(res.yes(), "C03: memo not reused although no input of its durability was written");
     }
     if dur_index(d) == 3 {
-        assert!(res.yes() == initially_ok || res.yes(), "C02: never-change memo must stay shallow-verifiable");
-        assert!(res.yes(), "C02: a NEVER_CHANGE memo failed shallow verification");
+        assert!(res.yes(), "C03: a NEVER_CHANGE memo failed shallow verification");
     }
     std::mem::forget(header);
     std::mem::forget(zalsa);
